@@ -1147,11 +1147,67 @@ def rule_alias_table(prog, fixture=False):
     return r
 
 
+# ---------------------------------------------------------------- R-C09-11
+def rule_string_state_per_line(prog, fixture=False):
+    r = RuleResult("R-C09-11", "the line decoder's inside-a-string state (the bool toggled at each '\"') starts false for "
+                   "every line: it is a local of the line decoder, or is reset by the caller before each call - bytes "
+                   "inside a string bypass token validation, so a state that survives an unbalanced quote would let "
+                   "ill-formed later lines through", floor=0 if fixture else 1)
+    for fn in prog.functions.values():
+        if _callee({"k": "CallExpr", "q": fn.qn}) not in DECODERS and fn.name not in DECODERS:
+            continue
+        for n in fn.walk():
+            if n.get("k") != "BinaryOperator" or n.get("op") != "=":
+                continue
+            rhs = strip_all(n["c"][1])
+            if rhs is None or rhs.get("k") != "UnaryOperator" or rhs.get("op") != "!" or not same_expr(rhs["c"][0], n["c"][0]):
+                continue
+            tgt = strip_all(n["c"][0])
+            key = "%s::%s::toggle(%s)" % (fn.relfile(), fn.qn, show(tgt)[:20])
+            if tgt.get("k") == "DeclRefExpr" and tgt.get("dk") == "Var":
+                decl = [v for v in fn.walk() if v.get("k") == "VarDecl" and v.get("d") == tgt["d"]]
+                local = bool(decl) and not decl[0].get("sl") and decl[0].get("c") and folded(decl[0]["c"][0]) == 0
+                r.add(key, fn.loc(n), bool(local), "a local that starts false in every call" if local else
+                      "`%s` is not a local initialised to false for each line: the state carries over from one line to the next" % show(tgt))
+                continue
+            if tgt.get("k") == "UnaryOperator" and tgt.get("op") == "*" and (strip_all(tgt["c"][0]) or {}).get("dk") == "ParmVar":
+                pd = strip_all(tgt["c"][0])["d"]
+                idx = [i for i, p_ in enumerate(fn.params) if p_["d"] == pd]
+                bad = None
+                for g in prog.functions.values():
+                    for c in g.walk():
+                        if c.get("k") == "CallExpr" and fn in prog.call_targets(g, c) and idx and idx[0] < len(call_args(c)):
+                            a = strip_all(call_args(c)[idx[0]])
+                            v = strip_all(a["c"][0]) if a is not None and a.get("k") == "UnaryOperator" and a.get("op") == "&" else None
+                            loop = None
+                            for anc in g.ancestors(c):
+                                if anc.get("k") in ("ForStmt", "WhileStmt", "DoStmt"):
+                                    loop = anc
+                                    break
+                            if v is None or v.get("k") != "DeclRefExpr":
+                                bad = (g, c)
+                                continue
+                            if loop is None:
+                                continue
+                            body = loop["c"][loop["parts"]["body"]]
+                            reset = any(x.get("k") == "BinaryOperator" and x.get("op") == "=" and (strip_all(x["c"][0]) or {}).get("d") == v["d"]
+                                        and folded(x["c"][1]) == 0 for x in walk(body)) or \
+                                any(x.get("k") == "VarDecl" and x.get("d") == v["d"] and x.get("c") and folded(x["c"][0]) == 0 for x in walk(body))
+                            if not reset:
+                                bad = (g, c)
+                r.add(key, fn.loc(n), bad is None, "reset by every caller before each line" if bad is None else
+                      "the state lives in the caller (%s) and is not reset between lines: after a line with an odd number of "
+                      "quotes the following lines are copied raw, unvalidated" % bad[0].loc(bad[1]))
+                continue
+            r.add(key, fn.loc(n), False, "`%s` outlives the call" % show(tgt))
+    return r
+
+
 def run(ctx):
     prog = ctx.prog("basic", "N")
     return [rule_eof_before_use(prog), rule_short_fread(prog), rule_static_state(prog),
             rule_failures_propagate(prog), rule_table_contradiction(prog), rule_extension_needs_byte(prog), rule_every_file_decoded(prog),
-            rule_success_only_at_end(prog), _shared_body_rule(prog), rule_alias_table(prog)]
+            rule_success_only_at_end(prog), _shared_body_rule(prog), rule_alias_table(prog), rule_string_state_per_line(prog)]
 
 
 def _shared_body_rule(prog):
